@@ -156,6 +156,8 @@ func main() {
 	switch os.Args[1] {
 	case "vc":
 		cmdVC(os.Args[2:])
+	case "sweep":
+		cmdSweep(os.Args[2:])
 	case "check":
 		os.Exit(cmdCheck(os.Args[2:]))
 	case "bounded":
